@@ -5,6 +5,7 @@ import (
 	"go/ast"
 	"go/token"
 	"go/types"
+	"sort"
 	"strings"
 
 	"ledgerlint/internal/astx"
@@ -74,111 +75,293 @@ func logProducingMethods(c *core.Ctx) []string {
 	return out
 }
 
+// evtRoles identifies the parts of the events decorator by type rather than by name: the queue of
+// deferred closures ([]func()), the parent link (*T), the in-transaction flag (bool), the listener
+// (interface Listener) and the embedded inner controller.
+type evtRoles struct {
+	queue, parent, flag, listener, inner string
+}
+
+func eventRoles(c *core.Ctx, T string) (evtRoles, bool) {
+	var r evtRoles
+	nt := namedType(c, pkgCtrl, T)
+	if nt == nil {
+		return r, false
+	}
+	st, ok := nt.Underlying().(*types.Struct)
+	if !ok {
+		return r, false
+	}
+	for i := 0; i < st.NumFields(); i++ {
+		f := st.Field(i)
+		switch t := f.Type().(type) {
+		case *types.Slice:
+			if sig, isFn := t.Elem().Underlying().(*types.Signature); isFn && sig.Params().Len() == 0 && sig.Results().Len() == 0 {
+				r.queue = f.Name()
+			}
+		case *types.Pointer:
+			if astx.Named(t.Elem()) == nt {
+				r.parent = f.Name()
+			}
+		case *types.Basic:
+			if t.Kind() == types.Bool {
+				r.flag = f.Name()
+			}
+		case *types.Named:
+			if t.Obj().Name() == "Listener" {
+				r.listener = f.Name()
+			}
+			if f.Embedded() && t.Obj().Name() == "Controller" {
+				r.inner = f.Name()
+			}
+		}
+	}
+	return r, r.queue != "" && r.parent != "" && r.flag != "" && r.listener != "" && r.inner != ""
+}
+
+// funcParamIndex returns the index of the (single) parameter of type func() of fd, -1 if none.
+func funcParamIndex(info *types.Info, fd *ast.FuncDecl) (int, types.Object) {
+	idx, i := -1, 0
+	var obj types.Object
+	if fd.Type.Params == nil {
+		return -1, nil
+	}
+	for _, fl := range fd.Type.Params.List {
+		names := len(fl.Names)
+		if names == 0 {
+			names = 1
+		}
+		for k := 0; k < names; k++ {
+			if sig, ok := info.TypeOf(fl.Type).Underlying().(*types.Signature); ok && sig.Params().Len() == 0 && sig.Results().Len() == 0 {
+				if idx >= 0 {
+					return -1, nil
+				}
+				idx = i
+				if k < len(fl.Names) {
+					obj = info.ObjectOf(fl.Names[k])
+				}
+			}
+			i++
+		}
+	}
+	return idx, obj
+}
+
 func ruleEventsDecorator(c *core.Ctx) {
 	const T = "ControllerWithEvents"
 	pk := c.Prog().Pkg(pkgCtrl)
 	info := pk.TypesInfo
-	// 1. listener calls only inside closures handed to handleEvent
-	n := 0
-	for _, f := range pk.Syntax {
-		for _, dd := range f.Decls {
-			fd, ok := dd.(*ast.FuncDecl)
-			if !ok || fd.Body == nil || load.RecvName(fd) != T {
+	roles, okRoles := eventRoles(c, T)
+	if !okRoles {
+		c.Unknown("EVT/roles", T, "", fmt.Sprintf("the fields of %s do not have the expected kinds (queue []func(), parent *%s, bool flag, Listener, embedded Controller): %+v", T, T, roles))
+		return
+	}
+	c.PassTrivial("EVT/roles", T, "", fmt.Sprintf("%+v", roles))
+	ix := index(c)
+	// the methods of T
+	var methods []*astx.DeclInfo
+	for _, d := range ix.Decls {
+		if d.Decl.Body != nil && relPkg(d.Pkg.PkgPath) == pkgCtrl && loadRecv(d) == T && !strings.HasSuffix(c.Prog().Rel(d.Decl.Pos()), "_test.go") {
+			methods = append(methods, d)
+		}
+	}
+	sort.Slice(methods, func(i, j int) bool { return methods[i].Decl.Pos() < methods[j].Decl.Pos() })
+	recvField := func(d *astx.DeclInfo, e ast.Expr, field string) bool { return canonPath(d, e) == "recv."+field }
+	// the dispatcher: the method that appends its func() parameter to the queue
+	var disp *astx.DeclInfo
+	for _, d := range methods {
+		_, pobj := funcParamIndex(info, d.Decl)
+		if pobj == nil {
+			continue
+		}
+		ast.Inspect(d.Decl.Body, func(n ast.Node) bool {
+			as, ok := n.(*ast.AssignStmt)
+			if !ok || len(as.Lhs) != 1 || len(as.Rhs) != 1 || !recvField(d, as.Lhs[0], roles.queue) {
+				return true
+			}
+			if call, ok := as.Rhs[0].(*ast.CallExpr); ok {
+				if id, ok := call.Fun.(*ast.Ident); ok && id.Name == "append" && usesObj(info, call, pobj) {
+					disp = d
+				}
+			}
+			return true
+		})
+	}
+	if disp == nil {
+		c.Fail("EVT/handle-event", T+":dispatcher", "", "no method of "+T+" appends a closure to the commit-time queue "+roles.queue+": events of writes inside a transaction cannot wait for the commit")
+		return
+	}
+	// deferring functions: the dispatcher, and methods that only hand their func() parameter on to one
+	type deferring struct {
+		d      *astx.DeclInfo
+		idx    int
+		dryArg int // index of a bool parameter whose truth skips the event, -1 if none
+	}
+	defers := map[*types.Func]*deferring{}
+	di, _ := funcParamIndex(info, disp.Decl)
+	defers[disp.Obj] = &deferring{disp, di, -1}
+	for changed := true; changed; {
+		changed = false
+		for _, d := range methods {
+			if defers[d.Obj] != nil {
 				continue
 			}
-			ast.Inspect(fd.Body, func(x ast.Node) bool {
-				call, ok := x.(*ast.CallExpr)
+			idx, pobj := funcParamIndex(info, d.Decl)
+			if pobj == nil {
+				continue
+			}
+			passes, other := 0, 0
+			var passCall *ast.CallExpr
+			ast.Inspect(d.Decl.Body, func(n ast.Node) bool {
+				id, ok := n.(*ast.Ident)
+				if !ok || info.Uses[id] != pobj {
+					return true
+				}
+				other++
+				return true
+			})
+			for _, call := range callsTo(info, d.Decl.Body, func(f *types.Func) bool { return defers[f] != nil }) {
+				df := defers[astx.Callee(info, call)]
+				if df.idx < len(call.Args) {
+					if id, ok := ast.Unparen(call.Args[df.idx]).(*ast.Ident); ok && info.Uses[id] == pobj {
+						passes++
+						passCall = call
+					}
+				}
+			}
+			if passes == 1 && other == 1 {
+				dry := -1
+				for _, ft := range astx.FactsAt(info, d.Decl.Body, passCall.Pos()) {
+					if p := canonPath(d, ft.Cond); strings.HasPrefix(p, "p") && !strings.Contains(p, ".") && !ft.Positive {
+						fmt.Sscanf(p, "p%d", &dry)
+					}
+				}
+				defers[d.Obj] = &deferring{d, idx, dry}
+				changed = true
+			}
+		}
+	}
+	isDeferCall := func(call *ast.CallExpr) *deferring {
+		if f := astx.Callee(info, call); f != nil {
+			return defers[f]
+		}
+		return nil
+	}
+	// 1. listener calls only inside closures handed to a deferring function
+	n := 0
+	for _, d := range methods {
+		fd := d.Decl
+		ast.Inspect(fd.Body, func(x ast.Node) bool {
+			call, ok := x.(*ast.CallExpr)
+			if !ok {
+				return true
+			}
+			se, ok := call.Fun.(*ast.SelectorExpr)
+			if !ok || !recvField(d, se.X, roles.listener) {
+				return true
+			}
+			n++
+			inDeferred := false
+			ast.Inspect(fd.Body, func(y ast.Node) bool {
+				he, ok := y.(*ast.CallExpr)
 				if !ok {
 					return true
 				}
-				se, ok := call.Fun.(*ast.SelectorExpr)
-				if !ok || !strings.HasSuffix(astx.SelectorPath(se.X), ".listener") {
+				df := isDeferCall(he)
+				if df == nil || df.idx >= len(he.Args) {
 					return true
 				}
-				n++
-				// enclosing FuncLit must be an argument of a handleEvent call
-				inDeferred := false
-				ast.Inspect(fd.Body, func(y ast.Node) bool {
-					he, ok := y.(*ast.CallExpr)
-					if !ok {
-						return true
-					}
-					if cf := astx.Callee(info, he); cf == nil || cf.Name() != "handleEvent" {
-						return true
-					}
-					for _, a := range he.Args {
-						if fl, ok := a.(*ast.FuncLit); ok && fl.Body.Pos() <= call.Pos() && call.End() <= fl.Body.End() {
-							inDeferred = true
-						}
-					}
-					return true
-				})
-				c.Check(inDeferred, "EVT/listener-call", fmt.Sprintf("%s.%s:%s", T, fd.Name.Name, se.Sel.Name), pos(c, call), "inside a closure passed to handleEvent",
-					"the listener is invoked directly instead of through handleEvent: inside a transaction the event would be published before (or without) the commit")
+				if fl, ok := ast.Unparen(he.Args[df.idx]).(*ast.FuncLit); ok && fl.Body.Pos() <= call.Pos() && call.End() <= fl.Body.End() {
+					inDeferred = true
+				}
 				return true
 			})
-		}
+			c.Check(inDeferred, "EVT/listener-call", fmt.Sprintf("%s.%s:%s", T, fd.Name.Name, se.Sel.Name), pos(c, call), "inside a closure passed to the event dispatcher",
+				"the listener is invoked directly instead of through handleEvent: inside a transaction the event would be published before (or without) the commit")
+			return true
+		})
 	}
 	c.Floor("EVT/listener-call", "listener invocations in ControllerWithEvents", n, 7)
-	// 2. handleEvent
-	if d := fn(c, pkgCtrl, T, "handleEvent"); d != nil {
+	// 2. the dispatcher
+	{
+		d := disp
 		key := declKey(d)
 		immediate, queued, delegated := 0, 0, 0
 		okImmediate := true
 		ast.Inspect(d.Decl.Body, func(x ast.Node) bool {
 			switch v := x.(type) {
 			case *ast.CallExpr:
-				if id, ok := v.Fun.(*ast.Ident); ok && id.Name == "fn" {
+				if isParamFuncCall(d, v) {
 					immediate++
-					facts := astx.FactsAt(info, d.Decl.Body, v.Pos())
-					if !(len(facts) == 1 && !facts[0].Positive && strings.HasSuffix(astx.SelectorPath(facts[0].Cond), ".hasTx") && astx.SelectorPath(facts[0].Cond) == "c.hasTx") {
+					only := true
+					neg := false
+					for _, ft := range astx.FactsAt(info, d.Decl.Body, v.Pos()) {
+						if recvField(d, ft.Cond, roles.flag) && !ft.Positive {
+							neg = true
+						} else {
+							only = false
+						}
+					}
+					if !(only && neg) {
 						okImmediate = false
 					}
 				}
-				if cf := astx.Callee(info, v); cf != nil && cf.Name() == "handleEvent" && strings.HasSuffix(astx.SelectorPath(recvExpr(v)), ".parent") {
+				if cf := astx.Callee(info, v); cf != nil && cf == d.Obj && recvField(d, recvExpr(v), roles.parent) {
 					delegated++
 					// the parent runs the closure at once when it is not transactional: delegate only
 					// to a parent that is itself inside the transaction
 					okDel := false
 					for _, f := range astx.FactsAt(info, d.Decl.Body, v.Pos()) {
-						if f.Positive && astx.SelectorPath(f.Cond) == "c.parent.hasTx" {
+						if f.Positive && canonPath(d, f.Cond) == "recv."+roles.parent+"."+roles.flag {
 							okDel = true
 						}
 					}
-					c.Check(okDel, "EVT/handle-event", key+":delegation-guard", pos(c, v), "delegates to the parent only under c.parent.hasTx", "handleEvent hands the closure to its parent without checking that the parent is inside the transaction: a non-transactional parent runs it immediately, so the event of a write inside a transaction is published before the commit and survives a rollback")
+					c.Check(okDel, "EVT/handle-event", key+":delegation-guard", pos(c, v), "delegates to the parent only when the parent is in the transaction", "handleEvent hands the closure to its parent without checking that the parent is inside the transaction: a non-transactional parent runs it immediately, so the event of a write inside a transaction is published before the commit and survives a rollback")
 				}
 			case *ast.AssignStmt:
-				if len(v.Lhs) == 1 && strings.HasSuffix(astx.SelectorPath(v.Lhs[0]), ".atCommit") {
+				if len(v.Lhs) == 1 && recvField(d, v.Lhs[0], roles.queue) {
 					queued++
 				}
 			}
 			return true
 		})
-		c.Check(immediate == 1 && okImmediate && queued == 1, "EVT/handle-event", key, pos(c, d.Decl), "immediate only when !c.hasTx, otherwise queued (possibly on the parent)",
+		c.Check(immediate == 1 && okImmediate && queued == 1, "EVT/handle-event", key, pos(c, d.Decl), "immediate only when not in a transaction, otherwise queued (possibly on the parent)",
 			fmt.Sprintf("handleEvent must run the closure immediately exactly when !c.hasTx and otherwise append it to atCommit (immediate calls=%d guarded-by-!hasTx-only=%v queue appends=%d parent delegations=%d)", immediate, okImmediate, queued, delegated))
 	}
 	// 3. Commit / Rollback
-	if d := fn(c, pkgCtrl, T, "Commit"); d != nil {
-		key := declKey(d)
-		var inner *ast.CallExpr
-		for _, call := range callsTo(info, d.Decl.Body, named("Commit")) {
-			if strings.HasSuffix(astx.SelectorPath(recvExpr(call)), ".Controller") {
-				inner = call
+	innerCall := func(d *astx.DeclInfo, name string) *ast.CallExpr {
+		for _, call := range callsTo(info, d.Decl.Body, named(name)) {
+			if recvField(d, recvExpr(call), roles.inner) {
+				return call
 			}
 		}
-		var loop *ast.RangeStmt
-		ast.Inspect(d.Decl.Body, func(x ast.Node) bool {
-			if rs, ok := x.(*ast.RangeStmt); ok && strings.HasSuffix(astx.SelectorPath(rs.X), ".atCommit") {
-				loop = rs
-			}
-			return true
-		})
+		return nil
+	}
+	if d := fn(c, pkgCtrl, T, "Commit"); d != nil {
+		key := declKey(d)
+		inner := innerCall(d, "Commit")
+		// where the queue is drained, seen from Commit
+		drainAt := token.NoPos
+		for _, sd := range fnScope(c, d, 1) {
+			sd := sd
+			ast.Inspect(sd.Decl.Body, func(x ast.Node) bool {
+				if rs, ok := x.(*ast.RangeStmt); ok && recvField(sd, rs.X, roles.queue) {
+					if p := rootPosOf(d, sd, rs.Pos()); p != token.NoPos {
+						drainAt = p
+					}
+				}
+				return true
+			})
+		}
 		ok := false
-		if inner != nil && loop != nil && inner.End() < loop.Pos() {
+		if inner != nil && drainAt != token.NoPos && inner.End() < drainAt {
 			// between them: if err != nil { return err }
-			for _, f := range astx.FactsAt(info, d.Decl.Body, loop.Pos()) {
-				if be, isBin := ast.Unparen(f.Cond).(*ast.BinaryExpr); isBin && be.Op == token.NEQ && !f.Positive && astx.IsNilExpr(info, be.Y) {
-					ok = true
+			for _, f := range astx.FactsAt(info, d.Decl.Body, drainAt) {
+				if isErrNilTest(info, f.Cond) {
+					be := ast.Unparen(f.Cond).(*ast.BinaryExpr)
+					if (be.Op == token.NEQ && !f.Positive) || (be.Op == token.EQL && f.Positive) {
+						ok = true
+					}
 				}
 			}
 		}
@@ -186,19 +369,21 @@ func ruleEventsDecorator(c *core.Ctx) {
 	}
 	if d := fn(c, pkgCtrl, T, "Rollback"); d != nil {
 		cleared := false
-		ast.Inspect(d.Decl.Body, func(x ast.Node) bool {
-			if as, ok := x.(*ast.AssignStmt); ok && len(as.Lhs) == 1 && strings.HasSuffix(astx.SelectorPath(as.Lhs[0]), ".atCommit") && astx.IsNilExpr(info, as.Rhs[0]) {
-				cleared = true
-			}
-			return true
-		})
-		innerRb := false
-		for _, call := range callsTo(info, d.Decl.Body, named("Rollback")) {
-			if strings.HasSuffix(astx.SelectorPath(recvExpr(call)), ".Controller") {
-				innerRb = true
-			}
+		for _, sd := range fnScope(c, d, 1) {
+			sd := sd
+			ast.Inspect(sd.Decl.Body, func(x ast.Node) bool {
+				if as, ok := x.(*ast.AssignStmt); ok && len(as.Lhs) == 1 && len(as.Rhs) == 1 && recvField(sd, as.Lhs[0], roles.queue) {
+					if astx.IsNilExpr(info, as.Rhs[0]) {
+						cleared = true
+					}
+					if se, ok := ast.Unparen(as.Rhs[0]).(*ast.SliceExpr); ok && se.High != nil && types.ExprString(se.High) == "0" {
+						cleared = true
+					}
+				}
+				return true
+			})
 		}
-		c.Check(cleared && innerRb, "EVT/rollback-clears", declKey(d), pos(c, d.Decl), "atCommit = nil; inner Rollback", "Rollback must drop the queued events and roll the inner controller back")
+		c.Check(cleared && innerCall(d, "Rollback") != nil, "EVT/rollback-clears", declKey(d), pos(c, d.Decl), "queue = nil; inner Rollback", "Rollback must drop the queued events and roll the inner controller back")
 	}
 	// 4. overrides
 	for _, m := range logProducingMethods(c) {
@@ -208,27 +393,36 @@ func ruleEventsDecorator(c *core.Ctx) {
 			c.Fail("EVT/override", key+":declared", "", fmt.Sprintf("%s does not override %s: that write would never publish an event", T, m))
 			continue
 		}
-		var inner *ast.CallExpr
-		for _, call := range callsTo(info, d.Decl.Body, named(m)) {
-			if strings.HasSuffix(astx.SelectorPath(recvExpr(call)), ".Controller") {
-				inner = call
+		inner := innerCall(d, m)
+		var hes []*ast.CallExpr
+		ast.Inspect(d.Decl.Body, func(x ast.Node) bool {
+			if call, ok := x.(*ast.CallExpr); ok && isDeferCall(call) != nil {
+				hes = append(hes, call)
 			}
-		}
-		hes := callsTo(info, d.Decl.Body, named("handleEvent"))
+			return true
+		})
 		if inner == nil || len(hes) != 1 {
 			c.Fail("EVT/override", key+":shape", pos(c, d.Decl), fmt.Sprintf("%s must call the inner %s once and handleEvent exactly once (found inner=%v, handleEvent calls=%d)", m, m, inner != nil, len(hes)))
 			continue
 		}
 		he := hes[0]
+		df := isDeferCall(he)
 		facts := astx.FactsAt(info, d.Decl.Body, he.Pos())
 		errChecked, notDry := false, false
 		for _, f := range facts {
-			if be, ok := ast.Unparen(f.Cond).(*ast.BinaryExpr); ok && be.Op == token.NEQ && !f.Positive && astx.IsNilExpr(info, be.Y) {
-				errChecked = true
+			if isErrNilTest(info, f.Cond) {
+				be := ast.Unparen(f.Cond).(*ast.BinaryExpr)
+				if (be.Op == token.NEQ && !f.Positive) || (be.Op == token.EQL && f.Positive) {
+					errChecked = true
+				}
 			}
 			if strings.HasSuffix(astx.SelectorPath(f.Cond), ".DryRun") && !f.Positive {
 				notDry = true
 			}
+		}
+		// the dry-run test may live in the deferring helper: emit(ctx, parameters.DryRun, fn)
+		if !notDry && df.dryArg >= 0 && df.dryArg < len(he.Args) && strings.HasSuffix(astx.SelectorPath(he.Args[df.dryArg]), ".DryRun") {
+			notDry = true
 		}
 		c.Check(inner.End() < he.Pos() && errChecked && notDry, "EVT/override", key, pos(c, he), "inner call, error returns, event only when !DryRun",
 			fmt.Sprintf("%s publishes its event without (a) the inner call having succeeded (error checked=%v) or (b) the request not being a dry run (guarded=%v)", m, errChecked, notDry))
@@ -236,19 +430,36 @@ func ruleEventsDecorator(c *core.Ctx) {
 	c.Floor("EVT/override", "log-producing Controller methods", len(logProducingMethods(c)), 7)
 	// 5. BeginTX child
 	if d := fn(c, pkgCtrl, T, "BeginTX"); d != nil {
-		ok := false
+		env := newOriginEnv(c, d)
+		state := 0 // +1 ok, -1 wrong, 0 not read
 		ast.Inspect(d.Decl.Body, func(x ast.Node) bool {
-			if cl, isLit := x.(*ast.CompositeLit); isLit && astx.RecvTypeName(info.TypeOf(cl)) == T {
-				h, p := fieldOfCompositeLit(cl, "hasTx"), fieldOfCompositeLit(cl, "parent")
-				if h != nil && p != nil {
-					if id, isID := h.(*ast.Ident); isID && id.Name == "true" && astx.SelectorPath(p) == d.Decl.Recv.List[0].Names[0].Name {
-						ok = true
-					}
+			r, isRet := x.(*ast.ReturnStmt)
+			if !isRet || len(r.Results) == 0 || isErrorReturn(info, d.Decl.Body, r) > 0 {
+				return true
+			}
+			lit, lenv := env.resolveLit(r.Results[0])
+			if lit == nil || astx.RecvTypeName(info.TypeOf(lit)) != T {
+				return true
+			}
+			h, p := fieldOfCompositeLit(lit, roles.flag), fieldOfCompositeLit(lit, roles.parent)
+			okChild := h != nil && p != nil && lenv.origin(h) == "true" && d.Decl.Recv != nil && len(d.Decl.Recv.List[0].Names) == 1 && lenv.origin(p) == "param:"+d.Decl.Recv.List[0].Names[0].Name
+			if okChild {
+				if state == 0 {
+					state = 1
 				}
+			} else {
+				state = -1
 			}
 			return true
 		})
-		c.Check(ok, "EVT/begin-tx-child", declKey(d), pos(c, d.Decl), "child{hasTx: true, parent: c}", "the controller returned by BeginTX is not marked transactional with its parent: its events would be published immediately")
+		switch state {
+		case 1:
+			c.Pass("EVT/begin-tx-child", declKey(d), pos(c, d.Decl), "child{in-transaction: true, parent: receiver}")
+		case -1:
+			c.Fail("EVT/begin-tx-child", declKey(d), pos(c, d.Decl), "the controller returned by BeginTX is not marked transactional with its parent: its events would be published immediately")
+		default:
+			c.Unrecognised("EVT/begin-tx-child", declKey(d), pos(c, d.Decl), "the value BeginTX returns is not built as a "+T+" literal the rule can follow")
+		}
 	}
 }
 
